@@ -1,4 +1,5 @@
 import SameVerif.Model.FullRx
+import SameVerif.Model.Program
 import Driver.Dsp
 /-
   `rx.full`: the whole-receiver model (Model/FullRx.lean, `Float32`) run on a raw audio file
@@ -65,6 +66,57 @@ def runFull (r0 : FullRx Float32) (xs : Array Float32) : Option (List Event) := 
       r := r'
       for e in ev do evs := evs.push e
   return some evs.toList
+
+/-- run the model over the samples from a given state; final state and events; `none` = the model panics -/
+def runFullFrom (r0 : FullRx Float32) (xs : Array Float32) (lo hi : Nat) : Option (FullRx Float32 × List Event) := Id.run do
+  let mut r := r0
+  let mut evs : Array Event := #[]
+  for i in [lo:hi] do
+    match r.sample xs[i]! with
+    | none => return none
+    | some (r', ev) =>
+      r := r'
+      for e in ev do evs := evs.push e
+  return some (r, evs.toList)
+
+def showEvs (evs : List Event) : String := if evs.isEmpty then "-" else ",".intercalate (evs.map showEventF)
+
+/-- `rx.fullreset <cfg…> <k> <file>`: the first `k` samples, `reset()`, the rest -/
+def fullRxResetOp (args : List String) : IO String := do
+  match args.getLast?, args.dropLast.getLast?.bind String.toNat?, parseRxCfg args.dropLast.dropLast with
+  | some path, some k, some cfg =>
+    let xs := f32sOfBytes (← IO.FS.readBinFile path)
+    match FullRx.new cfg with
+    | none => return "PANIC"
+    | some r0 =>
+      match runFullFrom r0 xs 0 (min k xs.size) with
+      | none => return "PANIC"
+      | some (r1, e1) =>
+        match runFullFrom r1.reset xs (min k xs.size) xs.size with
+        | none => return "PANIC"
+        | some (_, e2) => return s!"{showEvs e1} || {showEvs e2}"
+  | _, _, _ => return "bad-op"
+
+def showAMsgF (m : AMsg) : String :=
+  match m with
+  | .som t => "S" ++ hexOf (t.map UInt8.ofNat)
+  | .eom => "E"
+
+def showListF (xs : List String) : String := if xs.isEmpty then "-" else ",".intercalate xs
+
+/-- `app.full quiet=<0|1> child=<0|1> <cfg…> <file.s16>`: the whole-program model on the bytes of a recording -/
+def appFullOp (args : List String) : IO String := do
+  match args with
+  | quiet :: child :: rest =>
+    match rest.getLast?, parseRxCfg rest.dropLast with
+    | some path, some cfg =>
+      let bytes ← IO.FS.readBinFile path
+      match samedec cfg ⟨quiet == "quiet=1", child == "child=1"⟩ (fun _ => true) bytes.toList with
+      | none => return "PANIC"
+      | some out =>
+        return s!"printed={showListF (out.printed.map showAMsgF)} children={showListF (out.children.map (fun (m, a, b) => s!"{showAMsgF m}:{a}:{b}"))} exit=0"
+    | _, _ => return "bad-op"
+  | _ => return "bad-op"
 
 def fullRxOp (args : List String) : IO String := do
   match args.getLast?, parseRxCfg args.dropLast with
